@@ -651,11 +651,28 @@ def check_case(case, child_too=True):
             fid = "C04-F5"
         if fid is None and got[0] == "SyntaxError" and _f3_shape(case):
             fid = "C04-F3"      # the number-like character ends a NUMBER token in the middle of the word (`0\u00b2cc`)
+        if fid is None and got[0] == "SyntaxError" and any(
+                m["form"] == "form:triple" and len(m["exp"]) == 1 and "\\\n" in m["exp"][0]
+                and (m["exp"][0].endswith("\\\n") or _f1_invalid_escape(m["exp"][0])) for m in case.get("args") or []):
+            fid = "C04-F1"      # the leftover backslash escapes the closing quotes / starts an invalid escape: the literal no longer compiles
         return Failure("error:" + got[0], case, "line did not run: %s: %s" % got, finding=fid, bucket=fid or ("error:" + got[0]))
     if sorted(got) != sorted(want):
         fid = classify(case, got, want)
         if fid is None and case.get("f4_shape") and any("\t" in a or "  " in a for _n, argv in got for a in argv):
             fid = "C04-F4"      # the separating whitespace was glued into the word
+        if fid is None and case.get("f4_shape") and len(got) == len(want) == 1 and got[0][0] == want[0][0]:
+            # ... glued to a preceding @() whose value is an empty list: the product is empty, the word is gone
+            rest = list(want[0][1])
+            sub = True
+            for x in got[0][1]:
+                if x in rest:
+                    rest.remove(x)
+                else:
+                    sub = False
+                    break
+            if sub and rest and all(x[:1] in SYMBOLS or x[:1] in NUMLIKE for x in rest) and any(
+                    m["form"].startswith("form:at") and not m["exp"] for m in case.get("args") or []):
+                fid = "C04-F4"
         return Failure("argv-differs", case, "alias argv %r, model %r" % (got, want), finding=fid, bucket=fid)
     if child_too and "\x00" not in src:
         cgot = run_line(src, ctx, child=True)
